@@ -106,7 +106,7 @@ type Result struct {
 	// the active side, how many of them the fault plan dropped and how many were delivered;
 	// whether a SYN-ACK was delivered after the active side's last emission (unanswered).
 	Hs struct {
-		SynAckEmitted, SynAckDelivered                int
+		SynAckEmitted, SynAckDropped, SynAckDelivered int
 		ClientEmitted, ClientDropped, ClientDelivered int
 		SynAckUnanswered                              bool
 	}
@@ -314,6 +314,9 @@ func Run(sc *Scenario, frameCheck func(dir int, f *wire.Frame) string) Result {
 					switch {
 					case dir == 1 && t.Flags&rfc.SYN != 0:
 						res.Hs.SynAckEmitted++
+						if a.Drop {
+							res.Hs.SynAckDropped++
+						}
 					case dir == 0 && t.Flags&rfc.SYN == 0:
 						res.Hs.ClientEmitted++
 						res.Hs.SynAckUnanswered = false
@@ -562,7 +565,7 @@ func Run(sc *Scenario, frameCheck func(dir int, f *wire.Frame) string) Result {
 		pb.e.Close()
 		time.Sleep(5 * time.Second) // let the probe connection finish closing (same time-stamp bucket: 64 s)
 		resMu.Lock()
-		res.Hs.SynAckEmitted, res.Hs.SynAckDelivered, res.Hs.ClientEmitted, res.Hs.ClientDropped, res.Hs.ClientDelivered, res.Hs.SynAckUnanswered = 0, 0, 0, 0, 0, false
+		res.Hs.SynAckEmitted, res.Hs.SynAckDropped, res.Hs.SynAckDelivered, res.Hs.ClientEmitted, res.Hs.ClientDropped, res.Hs.ClientDelivered, res.Hs.SynAckUnanswered = 0, 0, 0, 0, 0, 0, false
 		resMu.Unlock()
 		want := *sc.PassiveISS - k
 		ca, cerr = connect(40000, &want)
